@@ -1181,3 +1181,74 @@ func hasQuantifier(ts []*Term) bool {
 	}
 	return false
 }
+
+// Weaken returns a quantifier-free formula implied by t (t asserted as a
+// hypothesis): every quantified subformula at positive polarity becomes true,
+// at negative polarity false. ok is false if a quantifier occurs where the
+// polarity is not determined (under ite conditions, Boolean equalities).
+func (b *TB) Weaken(t *Term) (*Term, bool) {
+	type key struct {
+		id  int
+		pos bool
+	}
+	cache := map[key]*Term{}
+	okAll := true
+	hasQ := map[int]bool{}
+	var qwalk func(t *Term) bool
+	qwalk = func(t *Term) bool {
+		if v, ok := hasQ[t.id]; ok {
+			return v
+		}
+		r := t.op == "forall"
+		for _, a := range t.args {
+			if qwalk(a) {
+				r = true
+			}
+		}
+		hasQ[t.id] = r
+		return r
+	}
+	var rec func(t *Term, pos bool) *Term
+	rec = func(t *Term, pos bool) *Term {
+		if !qwalk(t) {
+			return t
+		}
+		k := key{t.id, pos}
+		if r, ok := cache[k]; ok {
+			return r
+		}
+		var r *Term
+		switch t.op {
+		case "forall":
+			r = b.BoolC(pos)
+		case "not":
+			r = b.Not(rec(t.args[0], !pos))
+		case "and", "or":
+			as := make([]*Term, len(t.args))
+			for i, a := range t.args {
+				as[i] = rec(a, pos)
+			}
+			if t.op == "and" {
+				r = b.And(as...)
+			} else {
+				r = b.Or(as...)
+			}
+		case "=>":
+			r = b.Implies(rec(t.args[0], !pos), rec(t.args[1], pos))
+		case "ite":
+			if qwalk(t.args[0]) || t.sort.K != SBool {
+				okAll = false
+				r = t
+			} else {
+				r = b.Ite(t.args[0], rec(t.args[1], pos), rec(t.args[2], pos))
+			}
+		default:
+			okAll = false
+			r = t
+		}
+		cache[k] = r
+		return r
+	}
+	r := rec(t, true)
+	return r, okAll
+}
